@@ -83,6 +83,9 @@ type Region struct{ Pos, End token.Pos }
 type changeFinder struct {
 	Region
 
+	// End of the innermost node being walked, if it is known.
+	nodeEnd token.Pos
+
 	cl  Changelog
 	cmp nodeComparisons
 }
@@ -151,6 +154,10 @@ func (f changeFinder) Walk(from, to *value) (equal bool) {
 		if to.IsNil() {
 			f.changed()
 			return false
+		}
+
+		if from.IsNode {
+			f.nodeEnd = from.End()
 		}
 
 		// Dereferencing a pointer or interface doesn't affect region.
@@ -225,6 +232,16 @@ func (f changeFinder) walkStruct(from, to *value) bool {
 		if v := from.Children[i]; v.IsNode {
 			// If the field is a Node, its range ends where the Node ends.
 			ends[i] = v.End()
+
+			// ... but not after the node it is a part of. The
+			// positions of nodes added to the tree need not be those
+			// of their text: the path of an import added by an
+			// earlier change starts where the import before it does
+			// and "ends" as many bytes later as it is long, which
+			// may be in the next declaration.
+			if f.nodeEnd.IsValid() && ends[i] > f.nodeEnd {
+				ends[i] = f.nodeEnd
+			}
 		}
 
 		// The field that preceds this field should use this field's start
